@@ -37,6 +37,225 @@ def canon_model(case, term):
     return str(v)
 
 
+# ---------------------------------------------------------------------- end-to-end tie of the composed transfer model
+def _parse_bp(bhex):
+    """serialised RangeProof -> flat [('p', hex48) | ('s', int)] in the order A S T1 T2 tx tx~ e~ (L R)* a b"""
+    b = bytes.fromhex(bhex)
+    pos = 0
+    out = []
+    for _ in range(4):
+        out.append(("p", b[pos:pos + 48].hex())); pos += 48
+    for _ in range(3):
+        out.append(("s", int.from_bytes(b[pos:pos + 32], "big"))); pos += 32
+    n = int.from_bytes(b[pos:pos + 4], "big"); pos += 4
+    for _ in range(2 * n):
+        out.append(("p", b[pos:pos + 48].hex())); pos += 48
+    for _ in range(2):
+        out.append(("s", int.from_bytes(b[pos:pos + 32], "big"))); pos += 32
+    if pos != len(b):
+        raise ValueError("range proof encoding")
+    return out
+
+
+def _zl(xs):
+    return "[" + "; ".join("%d" % x for x in xs) + "]%Z"
+
+
+def _zpairs(ps):
+    return "[" + "; ".join("(%d, %d)" % (a, b) for a, b in ps) + "]%Z"
+
+
+def e2e_check(ctx, binp, seen, nontrivial):
+    """END-TO-END: the composed model (EncTransferFSExec.v, all challenges derived in the model) predicts ciphertexts,
+    transcript frames, responses, range proofs and the verifier's verdict of real make_/verify_ runs."""
+    ncase = 2 if ctx.quick else 18
+    npert = 1 if ctx.quick else 4
+    rc, out = c.run_bin(binp, ["e2e", ctx.seed, ncase, npert], timeout=3000)
+    recs = [json.loads(l) for l in out.splitlines() if l.startswith("{")]
+    gens = [r for r in recs if r.get("k") == "e2e-gens"]
+    cases = [r for r in recs if r.get("k") == "e2e"]
+    if rc != 0 or not gens or len(cases) != 2 * ncase:
+        ctx.violation({"layer": "e2e harness", "output": out[-1500:]}, "end-to-end harness failed", no_input=True)
+        return
+    gens = gens[0]
+    ids = {}
+
+    def t(hexpt):
+        return ids.setdefault(hexpt, len(ids) + 1)
+    H = lambda x: int(x, 16)
+    pre = ("From Coq Require Import ZArith NArith List. Import ListNotations.\n"
+           "From CB Require Import Crypto.EncTransferFSExec.")
+    # ---- evaluation 1: verifier-side transcript of every real (or perturbed) transfer, group elements as identifiers
+    views = []      # (case index, view)
+    fex = []
+    for ci, cs in enumerate(cases):
+        if cs["made"] is not True:
+            ctx.violation({"case": cs["in"], "kind": cs["kind"], "made": cs["made"]},
+                          "%s with amount <= balance was not produced (contradicts transfer_complete_fs / sec_to_pub_complete_fs)" % cs["kind"])
+            continue
+        for v in cs["views"]:
+            if v["cm"] is None:
+                continue
+            b = bytes.fromhex(v["cm"])
+            pos = [0]
+
+            def pt():
+                x = b[pos[0]:pos[0] + 48].hex(); pos[0] += 48; return t(x)
+
+            def vec():
+                n = int.from_bytes(b[pos[0]:pos[0] + 4], "big"); pos[0] += 4
+                return [(pt(), pt()) for _ in range(n)]
+            d, e = pt(), pt()
+            m1, m2 = vec(), vec()
+            pks = t(cs["in"]["pk_s"])
+            pkr = pks if cs["kind"] == "sec2pub" else t(cs["in"]["pk_r"])
+            bps = [[(t(x) if k == "p" else x) for k, x in _parse_bp(bh)] for bh in v["bps"]]
+            fex.append("e2e_frames %s %d%%Z %d%%Z %d%%Z %d%%Z (%d, %d)%%Z %s %s (%d%%Z, %d%%Z, %s, %s) [%s]" % (
+                "true" if cs["kind"] == "sec2pub" else "false", t(gens["g"]), t(gens["h"]), pks, pkr,
+                t(v["S"][0]), t(v["S"][1]), _zpairs([(t(x[0]), t(x[1])) for x in v["A"]]), _zpairs([(t(x[0]), t(x[1])) for x in v["Sp"]]),
+                d, e, _zpairs(m1), _zpairs(m2), "; ".join(_zl(bp) for bp in bps)))
+            views.append((ci, v))
+    fterms = c.coq_eval(ctx, "e2e_frames", pre, fex, shard=max(1, (len(fex) + 3) // 4))
+    inv = {v: k for k, v in ids.items()}
+    gcb = bytes.fromhex(gens["gc"])
+
+    def hashes(last, lens, table, small):
+        """sha3-256 of every prefix of `last` (token lengths `lens`), tokens expanded to the real bytes"""
+        want = sorted(set(lens))
+        out = {}
+        raw = bytearray()
+        for i, n in enumerate(last):
+            if i in want:
+                out[i] = hashlib.sha3_256(bytes(raw)).digest()
+            if small:
+                if n == 999:
+                    raw += gcb
+                elif n >= 1000:
+                    raw += bytes.fromhex(table[n - 1000])
+                else:
+                    raw.append(n)
+            elif n == 2 ** 259:
+                raw += gcb
+            elif n >= 2 ** 260:
+                raw += bytes.fromhex(table[n - 2 ** 260])
+            else:
+                raw.append(n)
+        out[len(last)] = hashlib.sha3_256(bytes(raw)).digest()
+        return [out.get(l) for l in lens]
+    tabs = {}
+    nframes = 0
+    for (ci, v), (last, lens, pref_ok) in zip(views, fterms):
+        want = 21 if cases[ci]["kind"] == "transfer" else 11
+        if len(lens) != want or len(set(lens)) != want or pref_ok != "true" or max(lens) != len(last):
+            ctx.violation({"layer": "e2e_frames", "kind": cases[ci]["kind"], "frames": len(lens)}, "model transcript has an unexpected shape", no_input=True)
+            return
+        tabs[id(v)] = list(zip(lens, hashes(last, lens, inv, True)))
+        nframes += want
+        if v["bump"] == -1 and tabs[id(v)][0][1].hex() != v["challenge"]:
+            ctx.violation({"case": cases[ci]["in"], "kind": cases[ci]["kind"], "layer": "first transcript frame"},
+                          "sha3-256 of the model's first frame differs from the sigma challenge of the real %s" % cases[ci]["kind"])
+    # ---- evaluation 2: the whole model from the secrets and the prover's random scalars
+    def tab_lit(tab):
+        return "[" + "; ".join("(%d, [%s])" % (l, "; ".join(str(x) for x in h)) for l, h in tab) + "]%N"
+
+    def bpr(o):
+        return " ".join(_zl([H(x) for x in o[k]]) for k in ("sL", "sR", "at", "st", "t1", "t2"))
+    ex2 = []
+    for ci, v in views:
+        cs = cases[ci]
+        i = cs["in"]
+        honest = tabs[id(cs["views"][0])]
+        sig = lambda l: _zpairs([(H(a), H(b)) for a, b in l])
+        common = "%s %s %d%%Z %d%%Z %s %s %d%%Z" % (tab_lit(honest), tab_lit(tabs[id(v)]), H(gens["dg"]), H(gens["dh"]),
+                                                  _zl([H(x) for x in gens["dGs"]]), _zl([H(x) for x in gens["dHs"]]), H(i["sk"]))
+        if cs["kind"] == "transfer":
+            ex2.append("e2e_transfer %s %d%%Z %s%%N %s%%N %d%%N %s %s %s %d%%Z %s %s %s %s (%d)%%Z" % (
+                common, H(i["dpk_r"]), i["bal"], i["amt"], i["idx"], _zl([H(x) for x in i["bal_ks"]]),
+                _zl([H(x) for x in cs["kA"]]), _zl([H(x) for x in cs["kS"]]), H(cs["common"]), sig(cs["sig1"]), sig(cs["sig2"]),
+                bpr(cs["bpa"]), bpr(cs["bps"]), v["bump"]))
+        else:
+            ex2.append("e2e_sec2pub %s %s%%N %s%%N %d%%N %s %s %d%%Z %s %s %s (%d)%%Z" % (
+                common, i["bal"], i["amt"], i["idx"], _zl([H(x) for x in i["bal_ks"]]),
+                _zl([H(x) for x in cs["kS"]]), H(cs["common"]), sig(cs["sig1"]), sig(cs["sig2"]), bpr(cs["bps"]), v["bump"]))
+    terms = c.coq_eval(ctx, "e2e_model", pre, ex2, shard=max(1, (len(ex2) + 11) // 12))
+    # dlog -> real point: one harness call
+    dl = set()
+    parsed = []
+    for (ci, v), term in zip(views, terms):
+        if term == "None" or term[0] != "Some":
+            parsed.append(None); continue
+        val = term[1]
+        if cases[ci]["kind"] == "transfer":
+            cts, (ch, resp), bpa, bps, verdict, frames = val
+            bpl = [bpa, bps]
+        else:
+            cts, (ch, resp), bps, verdict, frames = val
+            bpl = [bps]
+        parsed.append((cts, ch, resp, bpl, verdict, frames))
+        dl.update(cts)
+        for bp in bpl:
+            dl.update(x for j, x in enumerate(bp) if j < 4 or 7 <= j < len(bp) - 2)
+        dl.update(n - 2 ** 260 for n in frames[0] if n >= 2 ** 260)
+    dl = sorted(dl)
+    rc, eout = c.run_bin(binp, ["expand"], timeout=600, input="".join("%064x\n" % x for x in dl).encode())
+    pts = eout.split()
+    if rc != 0 or len(pts) != len(dl):
+        ctx.violation({"layer": "e2e expand", "output": eout[-500:]}, "expand harness failed", no_input=True)
+        return
+    real = dict(zip(dl, pts))
+    stats = {"views": len(views), "honest": 0, "perturbed": 0, "frames_hashed": 0, "mismatches": 0, "verdicts": {}}
+    for (ci, v), pr in zip(views, parsed):
+        cs = cases[ci]
+        tag = {"kind": cs["kind"], "in": cs["in"], "bump": v["bump"], "seed": ctx.seed}
+        key = c.digest(["e2e", cs["kind"], cs["in"]["bal"], cs["in"]["amt"], v["bump"], v["challenge"]]); seen.add(key); nontrivial.add(key)
+        stats["honest" if v["bump"] == -1 else "perturbed"] += 1
+        bad = []
+        if pr is None:
+            bad.append("model produced no transfer (None)")
+        else:
+            cts, ch, resp, bpl, verdict, frames = pr
+            want_cts = [x for cph in v["Sp"] for x in cph] + ([x for cph in v["A"] for x in cph] if cs["kind"] == "transfer" else [])
+            if [real[x] for x in cts] != want_cts:
+                bad.append("ciphertext chunks (remaining / transfer amount)")
+            if bytes(ch).hex() != v["challenge"]:
+                bad.append("sigma challenge")
+            if bytes(resp).hex() != v["resp"]:
+                bad.append("sigma responses")
+            for name, bp, bh in zip(["transfer-amount range proof", "remaining-amount range proof"] if cs["kind"] == "transfer" else ["remaining-amount range proof"], bpl, v["bps"]):
+                rb = _parse_bp(bh)
+                mine = [("p", real[x]) if (j < 4 or 7 <= j < len(bp) - 2) else ("s", x) for j, x in enumerate(bp)]
+                if mine != rb:
+                    diff = [j for j, (a, b) in enumerate(zip(mine, rb)) if a != b]
+                    bad.append("%s (flat positions %s)" % (name, diff[:6]))
+            tb = tabs[id(v)]
+            last, lens, pref_ok = frames
+            hs = hashes(last, lens, real, False) if max(lens) == len(last) else []
+            stats["frames_hashed"] += len(hs)
+            if pref_ok != "true" or list(lens) != [l for l, _ in tb] or hs != [h for _, h in tb]:
+                bad.append("transcript frames (sha3 of the model's frames != the challenges it was run with)")
+            stats["verdicts"][str((verdict, v["verdict"]))] = stats["verdicts"].get(str((verdict, v["verdict"])), 0) + 1
+            if verdict != v["verdict"]:
+                bad.append("verifier verdict: model %s, implementation %s (0 ok, 1 sigma, 2 first bulletproof, 3 second bulletproof)" % (verdict, v["verdict"]))
+            if v["bump"] == -1 and (v["verdict"] != 0 or not v["verifies"]):
+                bad.append("honest transfer rejected by the implementation")
+            if v["bump"] != -1 and v["verdict"] == 0:
+                bad.append("perturbed transfer accepted by the implementation")
+        if bad:
+            stats["mismatches"] += 1
+            ctx.violation(dict(tag, mismatch=bad, layer="end-to-end composed model (EncTransferFSExec.e2e_*) vs make_/verify_ transfer data"),
+                          "%s (balance %s, amount %s, perturbation %s): model and implementation differ in %s" % (
+                              cs["kind"], cs["in"]["bal"], cs["in"]["amt"], v["bump"], "; ".join(bad)))
+    ctx.cov["evaluations"] += len(views)
+    ctx.cov["traces_validated_against_impl"] += len(views)
+    ctx.notes["e2e"] = stats
+    ctx.notes["e2e_distribution"] = {"cases_per_kind": ncase, "perturbations_per_transfer": npert,
+        "balance_amount_classes": "(2^33+5, 2^32+7), whole balance, zero amount, u64::MAX balance, borrow from the high chunk, random",
+        "perturbation": "+base point / +1 at a random flat position of remaining|transfer ciphertexts and both range proofs (sec2pub: also amount+1)"}
+    if views:
+        ctx.cov["samples"].append({"k": "e2e", "kind": cases[views[0][0]]["kind"], "bal": cases[views[0][0]]["in"]["bal"], "amt": cases[views[0][0]]["in"]["amt"],
+                                   "frames": len(tabs[id(views[0][1])]), "verdict": views[0][1]["verdict"]})
+
+
 def run(ctx):
     kf = c.load_known_findings()
     t0 = [time.time()]
@@ -50,7 +269,7 @@ def run(ctx):
         "group = prime-order module over its scalar field; curve arithmetic (arkworks) and SHA3 are not modelled",
         "rejection of altered transfers is relative to soundness of the sigma/range proofs (C07/C11) - exercised, not proved",
         "BSGS: multiples x*h, x below the table range, are pairwise distinct and to_bytes is canonical (Section hypotheses h_inj, geqb_spec)",
-        "transfer_complete: the range-proof challenges are inputs shared by prover and verifier (C11's transcript tie), y and u_j invertible",
+        "transfer_complete_fs: every challenge is derived in the model from the modelled transcript; the prover aborts only when a derived challenge to be inverted is zero (then a byte string hashed to 0 is exhibited)",
         "harness build uses overflow-checks=on (checked model); the wrapping build is covered by chunks_roundtrip_release",
     ]
     ok, info = c.coq_prove(ctx)
@@ -59,7 +278,7 @@ def run(ctx):
         proof_broken = info
         ctx.log("proof obligations broken:", info["failed_file"])
 
-    okm, outm = c.coq_build(ctx, ["Crypto/ElGamalInst.vo", "Crypto/ValueChunks.vo", "Crypto/BsgsExec.vo", "Crypto/EncTransferExec.vo"])
+    okm, outm = c.coq_build(ctx, ["Crypto/ElGamalInst.vo", "Crypto/ValueChunks.vo", "Crypto/BsgsExec.vo", "Crypto/EncTransferExec.vo", "Crypto/EncTransferFSExec.vo"])
     if not okm:
         ctx.violation({"layer": "Coq model build", "output": outm[-1500:]}, "executable model files no longer build", no_input=True)
         return
@@ -363,6 +582,8 @@ def run(ctx):
     ctx.cov["traces_validated_against_impl"] += len(fr)
     ctx.notes["first_challenge_frames"] = {"proofs": len(fr), "mismatches": fbad}
     tick("frames")
+    e2e_check(ctx, binp, seen, nontrivial)
+    tick("e2e")
 
     # in-the-exponent correspondence for encrypt / aggregate / join / decrypt
     ne = 40 if ctx.quick else 1500
